@@ -1561,7 +1561,7 @@ class DiskRefsContainer(RefsContainer):
                     sha = self[ref]
                     if sha:
                         refs_to_pack[ref] = sha
-                except KeyError:
+                except (KeyError, SymrefLoop):
                     # Broken ref, skip it
                     pass
 
